@@ -7,11 +7,11 @@ import (
 
 // scalarType returns the scalar component type of a scalar / vector / matrix type.
 func (it *interp) scalarType(tid uint32) *Type {
-	t := it.p.ty[tid]
+	t := it.ty(tid)
 	for i := 0; t != nil && i < 3; i++ {
 		switch t.Kind {
 		case TVector, TMatrix:
-			t = it.p.ty[t.Elem]
+			t = it.ty(t.Elem)
 		default:
 			return t
 		}
@@ -21,14 +21,14 @@ func (it *interp) scalarType(tid uint32) *Type {
 
 func (it *interp) typeOfID(id uint32) uint32 {
 	if int(id) < len(it.p.valType) {
-		return it.p.valType[id]
+		return it.vt(id)
 	}
 	return 0
 }
 
 // vecCount returns the number of components for vectors, 0 for scalars.
 func (it *interp) vecCount(tid uint32) int {
-	if t := it.p.ty[tid]; t != nil && t.Kind == TVector {
+	if t := it.ty(tid); t != nil && t.Kind == TVector {
 		return int(t.Count)
 	}
 	return 0
@@ -705,7 +705,7 @@ func (it *interp) execPure(in *Inst, g func(uint32) Value) (res Value, ok bool) 
 
 	// ---------------------------------------------------------- composites
 	case OpCompositeConstruct:
-		t := it.p.ty[rt]
+		t := it.ty(rt)
 		if t == nil {
 			it.trap("OpCompositeConstruct of unknown type")
 		}
@@ -747,7 +747,7 @@ func (it *interp) execPure(in *Inst, g func(uint32) Value) (res Value, ok bool) 
 			return poisonSc(), true
 		}
 		i := int64(ix.Bits)
-		if t := it.p.ty[it.typeOfID(a[1])]; t != nil && t.Signed {
+		if t := it.ty(it.typeOfID(a[1])); t != nil && t.Signed {
 			i = sext(ix.Bits, t.Width)
 		}
 		if v.K != kComposite || i < 0 || i >= int64(len(v.Elems)) {
@@ -760,7 +760,7 @@ func (it *interp) execPure(in *Inst, g func(uint32) Value) (res Value, ok bool) 
 			it.trap("OpVectorInsertDynamic on a non-vector")
 		}
 		i := int64(ix.Bits)
-		if t := it.p.ty[it.typeOfID(a[2])]; t != nil && t.Signed {
+		if t := it.ty(it.typeOfID(a[2])); t != nil && t.Signed {
 			i = sext(ix.Bits, t.Width)
 		}
 		if ix.Poison || i < 0 || i >= int64(len(v.Elems)) {
@@ -887,7 +887,7 @@ func (it *interp) intDot(in *Inst, x, y Value) Value {
 
 // bitcast reinterprets bits; lower-numbered components map to lower-order bits.
 func (it *interp) bitcast(rt, ot uint32, v Value) Value {
-	rtT, otT := it.p.ty[rt], it.p.ty[ot]
+	rtT, otT := it.ty(rt), it.ty(ot)
 	if rtT == nil || otT == nil {
 		it.trap("OpBitcast of unknown types")
 	}
